@@ -1,6 +1,7 @@
 open Model
 open Util
 open Win
+open Slide
 
 (* which kind of result did a too-late row change? (narrows the known finding F8) *)
 let too_late_kind (c : cfg) (base : z) (tr : ev list) : string =
